@@ -108,6 +108,7 @@ func stateBytes(n *Node) string {
 
 // c09World is a resharing about to happen: epoch-1 group (leader L, members, one leaver), one joiner, one outsider.
 type c09World struct {
+	rejector *Node // a member that has rejected the open proposal (accept-after-reject cases)
 	bus      *Bus
 	prev     *fx.Net
 	old      []*Node // epoch-1 members; old[0] = leader
@@ -506,6 +507,30 @@ func (w *c09World) makeFollowUp(kind string) (*followUp, error) {
 	fu := &followUp{kind: kind, victims: map[string]*Node{}}
 	swallow := func(f func() error, k string) (*pdkg.GossipPacket, error) { return w.capture("gossip:"+k, f) }
 	switch kind {
+	case "accept-after-reject":
+		// one member rejects (everybody hears it); another member then accepts for itself, which is fine, or "for" the member
+		// that rejected, which is not
+		if len(w.members) < 2 {
+			return nil, fmt.Errorf("needs two members")
+		}
+		fu.kind = "accept"
+		w.rejector = w.members[0]
+		if err := w.rejector.Reject(); err != nil {
+			return nil, fmt.Errorf("reject: %w", err)
+		}
+		for i := 0; i < 200; i++ {
+			time.Sleep(5 * time.Millisecond)
+			if w.bus.InFlight.Load() == 0 && i > 10 {
+				break
+			}
+		}
+		fu.sender = w.members[1]
+		p, err := swallow(fu.sender.Accept, "accept")
+		if p == nil {
+			return nil, fmt.Errorf("no accept captured after the reject: %v", err)
+		}
+		fu.packet = p
+		fu.victims["leader"] = w.leader // the node that tallies acceptances and rejections
 	case "accept", "reject":
 		fu.sender = w.members[0]
 		f := fu.sender.Accept
@@ -563,11 +588,13 @@ func (w *c09World) followUpForgeries(fu *followUp) []forged {
 		p.Metadata = signAs(signer, "c09", p, w.terms, claimed)
 		out = append(out, forged{name: fu.kind + "/" + name, packet: p, signed: true})
 	}
+	// somebody else than the sender: another member if there is one, else the leader
 	other := w.leader
-	if fu.sender == w.leader {
-		other = w.members[0]
-	} else if len(w.members) > 1 {
-		other = w.members[1]
+	for _, m := range w.members {
+		if m != fu.sender {
+			other = m
+			break
+		}
 	}
 	mut("metadata-address", func(p *pdkg.GossipPacket) { p.Metadata.Address = other.Addr })
 	mut("metadata-beacon-id", func(p *pdkg.GossipPacket) { p.Metadata.BeaconID += "x" })
@@ -578,6 +605,9 @@ func (w *c09World) followUpForgeries(fu *followUp) []forged {
 		mut("acceptor-swapped", func(p *pdkg.GossipPacket) { p.GetAccept().Acceptor = other.Part })
 		// accepting for somebody else: `other` signs validly as itself, but the acceptor named is the original member
 		resign("entitlement/accept-for-somebody-else", other.Pair, other.Addr, nil)
+		if w.rejector != nil {
+			resign("entitlement/accept-in-the-name-of-a-member-that-rejected", fu.sender.Pair, fu.sender.Addr, func(p *pdkg.GossipPacket) { p.GetAccept().Acceptor = w.rejector.Part })
+		}
 		resign("entitlement/accept-by-joiner", w.joiner.Pair, w.joiner.Addr, func(p *pdkg.GossipPacket) { p.GetAccept().Acceptor = w.joiner.Part })
 		if w.leaver != nil {
 			resign("entitlement/accept-by-leaver", w.leaver.Pair, w.leaver.Addr, func(p *pdkg.GossipPacket) { p.GetAccept().Acceptor = w.leaver.Part })
@@ -613,7 +643,7 @@ func TestC09FollowUps(t *testing.T) {
 		scheme := rapid.SampledFrom(fx.SchemeNames).Draw(rt, "scheme")
 		seed := rapid.Uint64Range(1, 1<<32).Draw(rt, "keyseed")
 		withLeaver := rapid.Bool().Draw(rt, "leaver")
-		kind := rapid.SampledFrom([]string{"accept", "reject", "execute", "abort"}).Draw(rt, "packet")
+		kind := rapid.SampledFrom([]string{"accept", "reject", "execute", "abort", "accept-after-reject"}).Draw(rt, "packet")
 		defer Watchdog("c09f", 120*time.Second)()
 		w, err := newC09World(seed, scheme, withLeaver)
 		if err != nil {
@@ -653,8 +683,12 @@ func TestC09FollowUps(t *testing.T) {
 		derr := deliver(victim, f.packet)
 		time.Sleep(5 * time.Millisecond)
 		after := stateBytes(victim)
-		if derr == nil {
-			rec.Violation(rt, "C09/forged-packet-accepted/"+f.name, fmt.Sprintf("the %s accepted a forged %s packet (%s) || case: %s", vk, kind, f.name, desc), map[string]any{"case": desc})
+		if derr == nil && after == before {
+			// answered without an error but nothing was recorded: the packet was ignored, not accepted (a node that has heard a
+			// rejection, for instance, no longer tallies acceptances)
+			rec.Label("forged-follow-up-ignored-without-error")
+		} else if derr == nil {
+			rec.Violation(rt, "C09/forged-packet-accepted/"+f.name, fmt.Sprintf("the %s accepted a forged %s packet (%s): its DKG record changed || case: %s", vk, kind, f.name, desc), map[string]any{"case": desc, "before": before, "after": after})
 		} else if after != before {
 			rec.Violation(rt, "C09/rejected-packet-changed-state", fmt.Sprintf("the %s rejected the packet (%v) but its DKG records changed || case: %s", vk, derr, desc), map[string]any{"before": before, "after": after})
 		}
